@@ -27,7 +27,8 @@ O_HOST = [None, "override.example:99", ""]
 O_ORIGIN = ["<absent>", None, "https://o.example", ""]
 O_SUPPRESS = [False, True]
 O_SUBS = [None, [], ["chat"], ["chat", "superchat"], ["SOAP", "Chat.V2"], ["x-Trace", "X-TRACE"]]
-O_COOKIE = [None, "a=1; b=2", ""]
+# (the last: a caller pair whose TEXT occurs inside the pair the jar contributes, `sid=s3cr3t` — it is another cookie)
+O_COOKIE = [None, "a=1; b=2", "", "id=s3cr3t; theme=dark"]
 O_HEADER = [None, [], ["X-A: 1", "X-B: two words"], {"X-A": "1"}, {"X-A": "1", "X-N": None, "X-C": "c d"}, {}, {"X-E": "", "X-B": "2"}, ["X-E: "]]
 O_CONN = [None, "Upgrade", "keep-alive, Upgrade", ""]
 O_JAR = [False, True]
